@@ -48,15 +48,28 @@ def determinism(props, seed):
     return 1 if bad else 0
 
 
-def mutants(names, seed):
+def mutants(names, seed, seeded=False):
     mdir = os.path.join(VERIF, 'selftest', 'mutants')
     metas = []
-    for f in sorted(glob.glob(os.path.join(mdir, '*.json'))):
-        m = json.load(open(f))
-        m['_name'] = os.path.basename(f)[:-5]
-        if names and m['_name'] not in names:
-            continue
-        metas.append(m)
+    if seeded:
+        # sub-agent changes kept under seeded/<id>/ (patch.diff, demo, meta.json)
+        for f in sorted(glob.glob(os.path.join(VERIF, 'seeded', '*', 'meta.json'))):
+            m = json.load(open(f))
+            m['_name'] = os.path.basename(os.path.dirname(f))
+            m['_patch'] = os.path.join(os.path.dirname(f), 'patch.diff')
+            m.setdefault('expect', [m.get('property')])
+            m.setdefault('what', m.get('summary', ''))
+            if names and m['_name'] not in names:
+                continue
+            metas.append(m)
+    else:
+        for f in sorted(glob.glob(os.path.join(mdir, '*.json'))):
+            m = json.load(open(f))
+            m['_name'] = os.path.basename(f)[:-5]
+            m['_patch'] = os.path.join(mdir, m['_name'] + '.diff')
+            if names and m['_name'] not in names:
+                continue
+            metas.append(m)
     scratch = os.path.join(scratch_base(), 'mutant-%d' % os.getpid())
     failures = 0
     for m in metas:
@@ -64,7 +77,7 @@ def mutants(names, seed):
         os.makedirs(scratch)
         shutil.copytree('/repo/klepto', os.path.join(scratch, 'klepto'),
                         ignore=shutil.ignore_patterns('__pycache__', 'tests'))
-        patch = os.path.join(mdir, m['_name'] + '.diff')
+        patch = m['_patch']
         p = subprocess.run(['patch', '-p1', '-s', '-d', scratch, '-i', patch], stdout=subprocess.PIPE,
                            stderr=subprocess.STDOUT)
         if p.returncode != 0:
@@ -78,12 +91,20 @@ def mutants(names, seed):
             env['VERIF_KLEPTO_ROOT'] = scratch
             env['VERIF_SEED'] = str(seed)
             args = [os.path.join(VERIF, 'check'), prop, '--no-evidence']
-            if m.get('runs'):
-                args += ['--runs', str(m['runs'])]
+            runs = m.get('runs')
+            if isinstance(runs, dict):
+                runs = runs.get(prop)
+            if runs:
+                args += ['--runs', str(runs)]
             q = subprocess.run(args, env=env, stdout=subprocess.PIPE, stderr=subprocess.STDOUT, cwd=VERIF)
             out = q.stdout.decode()
             if q.returncode == 1 and 'VIOLATION property=%s' % prop in out:
                 caught.append(prop)
+                for line in out.splitlines():
+                    if line.startswith('violation class='):
+                        print('   %s: %s' % (prop, line[:260]))
+            elif q.returncode not in (0, 1):
+                print('   %s: check exited %d: %s' % (prop, q.returncode, out[-400:]))
         ok = bool(caught)
         print('mutant %-34s %s by %s (expected one of %s) in %.0fs  -- %s'
               % (m['_name'], 'CAUGHT' if ok else 'MISSED', caught or '-', m['expect'], time.time() - t0,
@@ -101,5 +122,7 @@ def main(which, prop, seed, rest, args):
         return determinism(names, seed)
     if which == 'mutants':
         return mutants(names, seed)
+    if which == 'seeded':
+        return mutants(names, seed, seeded=True)
     print('unknown selftest %r' % which)
     return 2
